@@ -120,6 +120,7 @@ def translate():
     if rc != 0:
         shutil.rmtree(tmp, ignore_errors=True)
         return False, out
+    write_known(tmp)
     os.makedirs(GEN, exist_ok=True)
     for f in sorted(os.listdir(tmp)):
         new = open(os.path.join(tmp, f)).read()
@@ -129,6 +130,24 @@ def translate():
                 fh.write(new)
     shutil.rmtree(tmp, ignore_errors=True)
     return True, out
+
+
+def write_known(outdir):
+    """Gen/Known.v: the keys of the OPEN findings of known_findings.jsonl that table theorems carry
+    as explicit exclusions (a fixed entry suppresses nothing and is not listed)."""
+    dead = []
+    for k in load_known():
+        if k.get("status") == "open" and k.get("key", "").startswith("C12:dead:"):
+            _, _, ver, enum, value = k["key"].split(":", 4)
+            dead.append((ver, enum, value))
+    lines = ["(* GENERATED from /verif/known_findings.jsonl (open findings only) -- do not edit *)",
+             "From Coq Require Import List String.", "From OV.Model Require Import Json.",
+             "Import ListNotations.", "Local Open Scope string_scope.", ""]
+    for tag, ver in (("16", "1.6"), ("201", "2.0.1")):
+        lines.append("Definition known_dead%s : list (string * string) := %s." % (
+            tag, clist(["(%s, %s)" % (cs(e), cs(v)) for (vv, e, v) in dead if vv == ver])))
+    with open(os.path.join(outdir, "Known.v"), "w") as fh:
+        fh.write("\n".join(lines) + "\n")
 
 
 def vfiles():
